@@ -49,7 +49,7 @@ def run(res: C.Result):
     rng = random.Random(res.seed)
     C.prove(res, extra_tb=["CPython text-file buffering and the host file system under process death are modelled (buffer lost on os._exit, pushed data kept) and validated by the real crashes"])
     quick = res.tier == "quick"
-    nruns = 2 if quick else 6
+    nruns = 3 if quick else 9
     stride = 5 if quick else 1
     dist = {"runs": [], "crash_points": 0, "operations": 0, "restart_window_hits": 0, "restart_docs_shrank": 0}
     coq_lines, meta = [], []
@@ -58,6 +58,9 @@ def run(res: C.Result):
     for ri in range(nruns):
         case = {"dir": str(root / f"ref{ri}"), "natoms": rng.randint(5, 8), "geom_seed": rng.randint(0, 999), "seed": rng.randint(1, 2 ** 31),
                 "mode": ["a", "w"][ri % 2], "mu": rng.choice([-0.05, 0.0, 0.05]), "bias": rng.choice([0.4, 0.5, 0.6]), "steps": 5 if quick else 7, "kill_at": None}
+        if ri % 3 == 2:
+            # files opened by the user and handed over as file objects (block-buffered; 'w' handle with the default logging mode 'a', or an 'a' handle)
+            case.update(handles="fileobj", handle_mode=["w", "a", "w"][(ri // 3) % 3], mode=["a", "a", "w"][(ri // 3) % 3])
         p = run_driver(case)
         if p.returncode != 0:
             res.fail("exception", f"reference run failed: {p.stderr[-500:]}", {"input": case})
@@ -95,7 +98,7 @@ def run(res: C.Result):
             res.broken("correspondence:Files.restart_call(shape)", {"restart_operations": shape["restart"][:80], "expected": "seek(0) truncate write flush per call"})
         lens = [len(x) for x in chunks["restart"]]
         dist["restart_docs_shrank"] += sum(1 for a, b in zip(lens, lens[1:]) if b < a)
-        dist["runs"].append({"mode": case["mode"], "ops": len(ops), "natoms_seen": sorted({s["natoms"] for s in ref["states"]})})
+        dist["runs"].append({"mode": case["mode"], "handles": case.get("handles", "path") + (":" + case["handle_mode"] if case.get("handles") else ""), "ops": len(ops), "natoms_seen": sorted({s["natoms"] for s in ref["states"]})})
         fname = {"log": "run.log", "traj": "run.xyz", "restart": "run.json"}
 
         def nops_before(tag, k):
